@@ -41,11 +41,13 @@ def ScalarValueOk (d : ArgDef) (v : Word) : Prop :=
 def Designates (cfg : Cfg) (k : Key) (j : Nat) : Prop :=
   ∃ d, cfg.args[j]? = some d ∧ k.eq d.key = true
 
-/-- rule "mandatory": every mandatory argument is used (a container destination that already holds
-    elements counts as set, as `hasValue()` says) -/
+/-- rule "mandatory": every mandatory argument is used; for a list argument "used" means with a value
+    that has at least one element, or the destination already holds elements (`hasValue()` of a
+    container is "not empty": `-l ,` leaves the vector empty and the argument counts as missing) -/
 def ObeysMandatory (cfg : Cfg) (inits : List DVal) (us : List Use) : Prop :=
   ∀ (i : Nat) (d : ArgDef), cfg.args[i]? = some d → d.mandatory = true →
-    (∃ u ∈ us, u.arg = i) ∨ (d.kind = .vecInt ∧ ∃ l, inits[i]? = some (.vec l) ∧ l ≠ [])
+    (∃ u ∈ us, u.arg = i ∧ (d.kind = .vecInt → splitSep d.sep u.val ≠ [])) ∨
+    (d.kind = .vecInt ∧ ∃ l, inits[i]? = some (.vec l) ∧ l ≠ [])
 
 /-- rule "values": every value given converts and passes the checks of its argument -/
 def ObeysValues (cfg : Cfg) (us : List Use) : Prop :=
